@@ -243,7 +243,8 @@ def problem_class():
             if self._holder.get("scripted", False):
                 o["casadi_solver"] = ScriptedSolver(self._holder)
             else:
-                o["ipopt"] = dict(o.get("ipopt", {}), print_level=0, tol=1e-10)
+                # effort cap: an instance IPOPT cannot finish quickly is counted as "solve-failed" and not judged at a solution
+                o["ipopt"] = dict(o.get("ipopt", {}), print_level=0, tol=1e-10, max_iter=300, max_cpu_time=15.0)
                 o["print_time"] = False
             return o
 
